@@ -1831,6 +1831,67 @@ fn v_convert(stream: &[u8], f: VFmt, c: Comp, iter: bool) -> std::io::Result<Vec
     Ok(out)
 }
 
+/// BCF only (VCF text cannot express it: noodles' VCF reader refuses an 8-column record under a
+/// header with samples): a document whose header has samples and in which every second record
+/// has NO sample columns (BCF: n_fmt = 0, l_indiv = 0), written by the generic writer and read back
+/// by the generic reader through both entry points, each of which reuses one record between calls.
+/// A reader that leaves the previous record's samples in the reused record invents genotypes.
+fn bcf_sampleless_case(ctx: &mut Ctx, header: &vcf::Header, bufs: &[vcf::variant::RecordBuf], case: &str) {
+    if header.sample_names().is_empty() || bufs.len() < 2 {
+        return;
+    }
+    let mut mixed = bufs.to_vec();
+    for (i, b) in mixed.iter_mut().enumerate() {
+        if i % 2 == 1 {
+            *b.samples_mut() = Default::default();
+        }
+    }
+    let mut expect: Vec<VRec> = match mixed.iter().map(|b| render_v(header, b)).collect::<std::io::Result<Vec<_>>>() {
+        Ok(x) => x,
+        Err(_) => return,
+    };
+    for r in expect.iter_mut() {
+        if r.keys.is_empty() {
+            r.samples.clear();
+        }
+    }
+    for c in [Comp::Plain, Comp::Bgzf] {
+        let tag = format!("bcf.{}", c.s());
+        let stream = match guarded(|| v_write(Some(VFmt::Bcf), Some(c), header, &mixed)) {
+            Ok(Ok(s)) => s,
+            Ok(Err(_)) => {
+                ctx.bump("sampleless_write_rejected");
+                continue;
+            }
+            Err(p) => {
+                ctx.fail("panic", format!("{tag} writer panicked on a document with sample-less records: {p}"), case.into());
+                continue;
+            }
+        };
+        for iter in [false, true] {
+            ctx.eval(Some(fnv(format!("{case} sampleless {tag} {iter}").as_bytes())));
+            match guarded(|| v_read_all(&stream, iter)) {
+                Ok(Ok((_, _, mut got))) => {
+                    // no FORMAT keys: "no rows" and "one empty row per header sample" are the same
+                    // content (the lazy BCF record yields the latter); canonicalised, not compared
+                    for r in got.iter_mut() {
+                        if r.keys.is_empty() {
+                            r.samples.clear();
+                        }
+                    }
+                    if let Some(d) = first_diff(&expect, &got, show_vrec) {
+                        ctx.fail("roundtrip-records", format!("{tag} ({}), every second record without sample columns: {d}", if iter { "records()" } else { "read_record" }), case.into());
+                    } else {
+                        ctx.bump("sampleless_ok");
+                    }
+                }
+                Ok(Err(e)) => ctx.fail("roundtrip-records", format!("{tag}: a document with sample-less records does not read back: {e}"), case.into()),
+                Err(p) => ctx.fail("panic", format!("{tag} reader panicked on a document with sample-less records: {p}"), case.into()),
+            }
+        }
+    }
+}
+
 fn vdoc_case(ctx: &mut Ctx, doc: &VDoc, case: &str, rng: &mut Rng, full_pairs: bool) {
     let (header, bufs) = match v_parse(doc) {
         Ok(x) => x,
@@ -1841,6 +1902,7 @@ fn vdoc_case(ctx: &mut Ctx, doc: &VDoc, case: &str, rng: &mut Rng, full_pairs: b
         }
     };
     let hsum = v_header_summary(&header);
+    bcf_sampleless_case(ctx, &header, &bufs, case);
     let mut streams: Vec<((VFmt, Comp), Vec<u8>)> = vec![];
     ctx.bump(&format!("vdoc_samples_{}", doc.nsamples));
     ctx.bump(&format!("vdoc_records_{}", match doc.recs.len() { 0 => "0", 1 => "1", 2..=20 => "2-20", _ => ">20" }));
